@@ -4,6 +4,7 @@ entries of the Model matrices), ladder matrices of the Spec on two modes.
 -/
 import OFV.Model.C14Gates
 import OFV.Spec.C14
+import OFV.Proofs.GQRing
 import Mathlib.Algebra.Ring.Rat
 import Mathlib.Tactic.Ring
 import Mathlib.Tactic.Linarith
@@ -11,7 +12,10 @@ import Mathlib.Tactic.LinearCombination
 import OFV.Generated.C14
 import OFV.Proofs.GQRing
 
+<<<<<<< HEAD
 
+=======
+>>>>>>> agentI
 namespace OFV.C14
 open OFV.Model.C14 OFV.Spec.C14
 
